@@ -34,6 +34,22 @@ func c01r1(c *Ctx) {
 	c.Rule(rule, "a credit saves transferred + existing: the addition of the current holding (or of the delta) lies on every path to the save", 8)
 	bal := balancePrefix(c.P)
 	done := map[string]bool{}
+	crediting := map[string]bool{}
+	for _, sp := range loadRegSpec() {
+		if sp.Supply == "+" || sp.Supply == "transfer" {
+			crediting[sp.Name] = true
+		}
+	}
+	credits := map[*ssa.Function]int{}
+	defer func() {
+		// semantic anchor instead of a raw site count: every function that credits must show a save recognised as a credit
+		for _, r := range c.P.Registrations() {
+			if r.Entry != nil && crediting[r.Key] && credits[r.Entry] == 0 {
+				c.Fail(rule, "floor", FuncName(r.Entry), r.Key+": a credit (Add before the save) below the entry point", c.P.Pos(r.Entry.Pos()),
+					"no balance save below "+r.Key+" is recognised as a credit: the addition of the transferred amount to the holding has disappeared")
+			}
+		}
+	}()
 	for _, r := range c.P.Registrations() {
 		if r.Entry == nil {
 			continue
@@ -60,7 +76,7 @@ func c01r1(c *Ctx) {
 			default:
 				class = "foreign entry (" + org + ")"
 			}
-			key := s.Chain() + "|" + s.Env.Term(obj) + "|" + acct
+			key := FuncName(r.Entry) + "|" + s.Chain() + "|" + s.Env.Term(obj) + "|" + acct
 			if done[key] {
 				continue
 			}
@@ -96,6 +112,7 @@ func c01r1(c *Ctx) {
 				continue
 			}
 			construct := "save of " + class + " " + s.Env.Term(obj) + " into " + acct + " via " + s.Chain()
+			credits[r.Entry]++
 			if okAt != "" {
 				c.OK(rule, FuncName(s.In.Parent()), construct, c.P.InstrPos(s.In), okAt)
 			} else {
@@ -666,9 +683,15 @@ func passesSameAccountAsRead(e *Env, u *ssa.Call, ent ssa.Value) bool {
 
 func c01r5(c *Ctx) {
 	const rule = "C01-R5"
-	c.Rule(rule, "a loaded account that is modified is saved on every path to success", 4)
+	c.Rule(rule, "a loaded account that is modified is saved on every path to success", 2)
+	loadedAccountSaved(c, rule, "", nil)
+}
+
+// loadedAccountSaved: in every function of builtInFunctions (restricted to `only` when given) an account obtained by a
+// load and then written is passed to SaveAccount on every path to a success return.
+func loadedAccountSaved(c *Ctx, rule, tag string, only map[*ssa.Function]bool) {
 	for _, fn := range c.P.Funcs {
-		if !c.P.InPkgs(fn, "builtInFunctions") {
+		if !c.P.InPkgs(fn, "builtInFunctions") || only != nil && !only[fn] {
 			continue
 		}
 		e := c.P.Env(fn)
@@ -734,7 +757,7 @@ func c01r5(c *Ctx) {
 			if len(effects) == 0 {
 				continue
 			}
-			construct := "account " + a.t + " loaded and modified in " + fn.Name()
+			construct := tag + "account " + a.t + " loaded and modified in " + fn.Name()
 			barriers := map[ssa.Instruction]bool{}
 			for _, s := range saves {
 				barriers[s] = true
